@@ -157,9 +157,7 @@ func (m *Metadata) MarshalBinary() ([]byte, error) {
 
 // UnmarshalBinary implements encoding.BinaryUnmarshaler.
 func (m *Metadata) UnmarshalBinary(data []byte) error {
-	var read int64
-	for read < int64(len(data)) {
-		data = data[read:]
+	for len(data) != 0 {
 		v, _, err := varint.FromUvarint(data)
 		if err != nil {
 			return err
@@ -172,8 +170,11 @@ func (m *Metadata) UnmarshalBinary(data []byte) error {
 		if err != nil {
 			return err
 		}
+		if tLen <= 0 || tLen > int64(len(data)) {
+			return errors.New("invalid transport length")
+		}
 		m.protocols = append(m.protocols, t)
-		read += tLen
+		data = data[tLen:]
 	}
 	return m.Validate()
 }
